@@ -5,6 +5,7 @@ vocabulary of Trace_Worker (broker events + xs/xe/bs/be/stop/forced/rend/quiet/l
 from __future__ import annotations
 
 import asyncio
+import json
 import logging
 from datetime import timedelta
 from typing import Any
@@ -122,6 +123,23 @@ async def run_worker(loop, sc: dict, make=None, projector=inmem_projector, signa
                                 "data": getattr(payload, "data", None), "exception": getattr(payload, "exception", None),
                                 "started": getattr(payload, "started_when", None), "finished": getattr(payload, "finished_when", None),
                                 "ttl": getattr(payload, "ttl", None), "t_us": CLOCK.us})
+            jid = id_[1:]
+            i = rec.mid(jid)
+            last = last_outcome.get(jid)
+            match = False
+            if last is not None:
+                if last["eager"] is not None:       # eager response: the result / exception set last
+                    kind, val = last["eager"]
+                    match = (payload.success == (kind == "res")) and (
+                        (kind == "res" and json.loads(payload.data) == val) or
+                        (kind == "exc" and payload.data == str(val) and payload.exception == type(val).__name__))
+                elif last["what"] == "ok":
+                    match = payload.success is True and payload.exception is None and json.loads(payload.data) == last["ret"]
+                else:
+                    match = payload.success is False and payload.exception is not None and isinstance(payload.data, str)
+                match = bool(match and payload.started_when <= payload.finished_when
+                             and payload.ttl == jobs[jid].get("result_ttl", timedelta(days=1)))
+            rec.emit({"e": "store", "i": i, "failed": bool(fail), "match": bool(match)})
             if fail:
                 raise ConnectionError("result store unavailable (injected)")
             return await orig_store(id_, payload)
@@ -129,6 +147,7 @@ async def run_worker(loop, sc: dict, make=None, projector=inmem_projector, signa
         rb.store_bucket = store_bucket
 
     jobs = {j["id"]: j for j in sc["jobs"]}
+    last_outcome: dict = {}
     attempts = {j["id"]: 0 for j in sc["jobs"]}
     conv = BasicConverter if sc.get("converter", "basic") == "basic" else PydanticConverter
     policies = {name: make_policy(a.get("policy", ["const", 0])) for name, a in sc["actors"].items()}
@@ -155,6 +174,7 @@ async def run_worker(loop, sc: dict, make=None, projector=inmem_projector, signa
             rec.exec_count[i] = rec.exec_count.get(i, 0) + 1
             rec.exec_log.append({"id": jid, "actor": name, "attempt": att, "t_us": CLOCK.us, "what": what})
             rec.emit({"e": "bs", "i": i, "okfn": job["actor"] == name})
+            last_outcome[jid] = {"what": what, "ret": {"jid": jid, "att": att}, "eager": None}
             try:
                 if dur:
                     await asyncio.sleep(dur / 1000)
@@ -174,12 +194,20 @@ async def run_worker(loop, sc: dict, make=None, projector=inmem_projector, signa
                     for extra in parts[1:]:
                         if extra == "res":
                             m.set_result({"r": jid})
+                            last_outcome[jid]["eager"] = ("res", {"r": jid})
                         elif extra == "exc":
-                            m.set_exception(KeyError(f"k{jid}"))
+                            exc = KeyError(f"k{jid}")
+                            m.set_exception(exc)
+                            last_outcome[jid]["eager"] = ("exc", exc)
                         elif extra == "cb":
                             m.add_callback(lambda: rec.exec_log.append({"id": jid, "cb": True, "t_us": CLOCK.us}))
                     op = parts[0][2:]
-                    await getattr(m, op)()
+                    try:
+                        await getattr(m, op)()
+                    except ValueError:      # the eager action was refused: an ordinary failure of the actor
+                        last_outcome[jid]["eager"] = None
+                        last_outcome[jid]["what"] = "raise"
+                        raise
                     rec.exec_log.append({"id": jid, "after_eager": True})   # must be unreachable
                     return None
                 raise AssertionError(what)
@@ -305,7 +333,8 @@ async def run_worker(loop, sc: dict, make=None, projector=inmem_projector, signa
         if loop.steps - state["steps0"] > sc.get("max_steps", 300_000) and not state.get("capped"):
             state["capped"] = True          # runaway scenario (no virtual time passes): abort it
             main_task.cancel()
-        if runners and not state["forced"] and runners[0].cancel_event.is_set():
+        if runners and not state["forced"] and runners[0].cancel_event.is_set() and runners[0]._tasks:
+            # the cancel event only *forces* anything if processing tasks are still pending
             state["forced"] = True
             rec.emit({"e": "forced"})
     loop.after_handle = after
@@ -342,7 +371,7 @@ async def run_worker(loop, sc: dict, make=None, projector=inmem_projector, signa
     if late or run_exc is not None:
         rec.emit({"e": "late", "why": run_exc or "a job was not executed by the deadline"})
     rec.emit({"e": "time", "now": ("us", CLOCK.us)})
-    rec.emit({"e": "quiet"})
+    rec.emit({"e": "quiet", "storefault": bool(sc.get("store_fail_at"))})
     rec.obs()
     results = {}
     if rb is not None:
